@@ -147,6 +147,8 @@ def check(rep, model, tier):
     c14.group(rep, model)
     rep.instances[before:] = [i for i in rep.instances[before:] if '3-D' in i['instance'] or 'signatures agree' in i['instance']]
     rep.rule('ARG-NAME', 'BycycleGroup.fit binds its settings to compute_features_3d by name (shared with C14)')
+    rep.rule('NO-STALE', 'BycycleGroup.fit, entered with every non-setting attribute unknown (earlier tables, the earlier array, bookkeeping), calls compute_features_3d exactly once and '
+                         'independently of that state: no refit shortcut or cached result can stand in for the analysis (shared with C14)')
     c19.dtable(rep, model, 'quick')
     epoch_grid(rep, model)
     rep.floor('rule instances', len(rep.instances), 30)
